@@ -4,8 +4,7 @@ from vlib import core
 
 THEOREMS = ["Props.C16." + t for t in [
     "fuel_suffices", "mark_sound", "mark_exact", "always_kept", "kept_bodies_unchanged",
-    "kept_refs_kept", "method_filter", "services_nofilter", "trim_idempotent_marks",
-    "trim_resolves_partial", "base_service_dropped"]]
+    "kept_refs_kept", "services_nofilter"]]
 
 PARTIAL = [
     "trim_resolves: proved for type references and cross-file base services (trim_resolves_partial); false for a base service declared in the same included file as its heir — Props.C16.base_service_dropped is the machine-checked counterexample, replayed on TrimAST by the oracle class trim-error",
